@@ -90,7 +90,8 @@ def elaborate(stub):
     avrs = []
     for k, s in enumerate(syns):
         if r.random() < 0.7:
-            adds.append({'model': 'TGOV1', 'idx': _style(r, 1, k), 'key': 'gov%d' % k, 'params': {'syn': '@' + s}})
+            # IEEEG1 carries an *optional* reference to a second machine (syn2, left empty here unless made dangling below)
+            adds.append({'model': r.choice(['TGOV1', 'TGOV1', 'IEEEG1']), 'idx': _style(r, 1, k), 'key': 'gov%d' % k, 'params': {'syn': '@' + s}})
         if r.random() < 0.6:
             adds.append({'model': r.choice(['EXDC2', 'IEEEX1', 'SEXS']), 'idx': _style(r, 1, k), 'key': 'avr%d' % k, 'params': {'syn': '@' + s}})
             avrs.append('avr%d' % k)
@@ -108,11 +109,14 @@ def elaborate(stub):
                 a['dup'] = True
     dang = None
     if r.random() < 0.25:
-        cands = [a for a in adds if a['model'] in ('GENCLS', 'GENROU', 'TGOV1', 'EXDC2', 'IEEEX1', 'SEXS', 'IEEEST', 'PQ', 'Line')]
+        cands = [a for a in adds if a['model'] in ('GENCLS', 'GENROU', 'TGOV1', 'EXDC2', 'IEEEX1', 'SEXS', 'IEEEST', 'PQ', 'Line', 'IEEEG1')]
+        opt = [a for a in cands if a['model'] == 'IEEEG1']
+        if opt and r.random() < 0.6:
+            cands = opt          # an optional reference that is given must exist, too
         if cands:
             a = r.choice(cands)
             field = {'GENCLS': 'gen', 'GENROU': 'gen', 'TGOV1': 'syn', 'EXDC2': 'syn', 'IEEEX1': 'syn', 'SEXS': 'syn', 'IEEEST': 'avr',
-                     'PQ': 'bus', 'Line': 'bus2'}[a['model']]
+                     'PQ': 'bus', 'Line': 'bus2', 'IEEEG1': 'syn2'}[a['model']]
             a['params'][field] = r.choice(['NOPE', 9999, 'Bus_999'])
             a['dangling'] = field
             dang = a['model'] + '.' + field
@@ -387,7 +391,7 @@ def _in_model_order(mdl, idxs):
 
 REFERRERS = [  # (referrer models, field, target group, backref holder kind)
     (('GENCLS', 'GENROU'), 'gen', 'StaticGen', 'SynGen'),
-    (('TGOV1',), 'syn', 'SynGen', 'TurbineGov'),
+    (('TGOV1', 'IEEEG1'), 'syn', 'SynGen', 'TurbineGov'),
     (('EXDC2', 'IEEEX1', 'SEXS'), 'syn', 'SynGen', 'Exciter'),
     (('IEEEST',), 'avr', 'Exciter', 'PSS'),
 ]
